@@ -585,8 +585,9 @@ impl VariableSet {
     /// For variables that have an array value, the array items are concatenated
     /// with a `:` between them to represent the value in a single string.
     ///
-    /// This function ignores variables that have a name that contains a `=`,
-    /// since the `=` would be misinterpreted as the name-value separator.
+    /// This function ignores variables that have an empty name or a name that
+    /// contains a `=`, since the `=` would be misinterpreted as the name-value
+    /// separator.
     ///
     /// Currently, this function also ignores the variable if the name or value
     /// contains a nul character, but this behavior may be changed in the
@@ -597,7 +598,7 @@ impl VariableSet {
             .iter()
             .filter_map(|(name, vars)| {
                 let var = &vars.last()?.variable;
-                if !var.is_exported || name.contains('=') {
+                if !var.is_exported || name.is_empty() || name.contains('=') {
                     return None;
                 }
                 let value = var.value.as_ref()?;
